@@ -202,6 +202,9 @@ def check_frame_of_loop(ex, env, before, modified, node):
     if '.' in m:
       mod_fields.add(m.split('.')[-1])
   for key, v in heap0.items():
+    rec = ex.ctx.objects.get(key[0])
+    if rec is not None and getattr(rec, 'epoch', -1) == ex.ctx.epoch:
+      continue      # object of this iteration (fresh or havocked at the head)
     if heap1.get(key) is not v and key[1] not in mod_fields and (
         '*' not in mod_fields):
       raise EngineError('loop at line %d changes field %s of object %d, '
@@ -253,7 +256,7 @@ def exec_for(ex, node, env):
   line = node.lineno
 
   def ghost_at(k, vis):
-    g = {'k': VInt(k), 'n': VInt(model.n)}
+    g = {'iter_index': VInt(k), 'iter_count': VInt(model.n)}
     if vis is not None:
       g['visited'] = VSet(vis, model.visited_sort)
     for name, fn in spec.ghost.items():
@@ -264,9 +267,10 @@ def exec_for(ex, node, env):
   ctx.cur_line = line
   check_invs(ex, spec, env, ghost_at(z3.IntVal(0), vis0), 'loop-init')
   d = ctx.choice(2)
+  if d == 0:
+    ctx.epoch += 1      # objects made by the havoc belong to this iteration
   havoc(ex, env, modified)
   if d == 0:
-    ctx.epoch += 1
     k = z3.Int(ctx.sym('k'))
     ctx.assume(z3.And(k >= 0, k < model.n))
     vis = None
@@ -319,10 +323,11 @@ def exec_while(ex, node, env):
   ctx.cur_line = line
   check_invs(ex, spec, env, dict(spec.ghost), 'loop-init')
   d = ctx.choice(2)
+  if d == 0:
+    ctx.epoch += 1
   havoc(ex, env, modified)
   assume_invs(ex, spec, env, dict(spec.ghost))
   if d == 0:
-    ctx.epoch += 1
     v0 = None
     if spec.variant is not None:
       v0 = spec.variant(inv_ns(ex, env, dict(spec.ghost)))
